@@ -18,6 +18,7 @@ ASSUME \A n \in 1..Len(Obs) : Report(Obs[n])
 
 ObsNFn == <<1>>
 ObsPerms == {<<10>>}
+ObsTails == {<<FALSE>>}
 
 VARIABLE done
 OInit == done = FALSE
